@@ -250,7 +250,7 @@ def perturb(rng, text):
     elif k == 1: j = rng.randint(0, len(lines[i])); lines[i] = lines[i][:j] + rng.choice(' *x-+5.E\t') + lines[i][j:]
     elif k == 2: lines[i] = lines[i][:rng.randint(0, len(lines[i]))]
     elif k == 3: del lines[i]
-    elif k == 4: lines.insert(i, rng.choice(['', '   ', '+++', 'AB1 5', ' 1.0 2.0']))
+    elif k == 4: lines.insert(i, rng.choice(['', '   ', '+++', 'AB1 5', ' 1.0 2.0', ' 1.0000000000000e+0130000000000 2.0', 'AB1 5          1e-013000000000']))
     elif k == 5 and lines[i]: j = rng.randrange(len(lines[i])); lines[i] = lines[i][:j] + rng.choice('0123456789 ') + lines[i][j + 1:]
     else: lines[i] = lines[i].upper().replace('E+', rng.choice(['+', 'D+', 'E+'])).replace('E-', rng.choice(['-', 'D-', 'E-']))
     return '\n'.join(lines) + '\n\n'
@@ -474,7 +474,8 @@ def correspond_strtod(ctx, exe):
     rng = ctx.rng
     texts = ['0', '-0.0', '1e-400', '1e400', '4.9e-324', '2.4703282292062327e-324', '2.4703282292062328e-324', '1.7976931348623157e308',
              '1.7976931348623158e308', '1.7976931348623159e308', '2.2250738585072014e-308', '2.2250738585072011e-308', '9007199254740993',
-             '9007199254740992.5', '0.1', '1.0000000000000002', '1.00000000000000011102230246251565404236316680908203125', '5e-324', '3e-324']
+             '9007199254740992.5', '0.1', '1.0000000000000002', '1.00000000000000011102230246251565404236316680908203125', '5e-324', '3e-324',
+             '1e+013000000000', '0e+013000000000', '5e-13000000000', '1e401', '123e-402', '1e-401']
     for _ in range(20000 if ctx.thorough else 3000):
         nd = rng.choice([1, 5, 10, 14, 15, 16, 17, 20])
         texts.append('%s%d.%se%d' % (rng.choice(['', '-']), rng.randint(0, 9), ''.join(rng.choice('0123456789') for _ in range(nd)), rng.choice([0, rng.randint(-30, 30), rng.randint(-330, 310)])))
